@@ -1,0 +1,13 @@
+//go:build verif
+
+package hashing
+
+// Contracts for govc (see /verif/DESIGN.md). Comment-only: no declarations.
+
+//@ func XorBytes32(a, b) out
+//@   property C19
+//@   ensures forall k :: 0 <= k < 32 ==> out[k] == a[k] ^ b[k]
+//@   loop 1
+//@     invariant 0 <= i <= 32
+//@     invariant forall k :: 0 <= k < i ==> out[k] == a[k] ^ b[k]
+//@     decreases 32 - i
